@@ -970,6 +970,29 @@ pub fn run_case(c: &Value, seed: u64, idx: u64) -> (String, Option<String>) {
                     },
                 }
             },
+            "stmt_forge" => {
+                // a statement edited after construction (its fields are public): the promise list no longer has one entry per
+                // commitment. The independent prover makes the proof most favourable to a verifier that would only look at the
+                // commitments that still have a promise entry: it follows the transcript of exactly this statement and treats the
+                // other commitments as absent; those commit to a value far outside the range. np = m is the well-formed control.
+                let (n, t, m, np) = (u("n"), u("t"), u("m"), u("np"));
+                let params = RangeParameters::<P>::init(n, m, pedersen_std(t)).unwrap();
+                let bl: Vec<Vec<Scalar>> = (0..m).map(|j| (0..t).map(|k| hash_scalar(&[b"sf", &(j as u64).to_le_bytes(), &(k as u64).to_le_bytes(), &seed.to_le_bytes()])).collect()).collect();
+                let real: Vec<u64> = (0..m).map(|j| if j < np { 1 + (j as u64 % ((1u64 << n) - 1)) } else { (1u64 << 40) + 3 }).collect();
+                let cs: Vec<P> = (0..m).map(|j| params.pc_gens().commit(&Scalar::from(real[j]), &bl[j]).unwrap()).collect();
+                let mut st = RangeStatement::init(params, cs, vec![None; m], None).unwrap();
+                st.minimum_value_promises = (0..np).map(|j| if j % 2 == 1 { Some(1) } else { None }).collect();
+                let fv: Vec<u64> = (0..m).map(|j| if j < np { real[j] } else { 0 }).collect();
+                let fb: Vec<Vec<Scalar>> = (0..m).map(|j| if j < np { bl[j].clone() } else { vec![Scalar::ZERO; t] }).collect();
+                let bytes = ref_prove(&st, &fv, &fb, b"sf", seed ^ idx);
+                match RangeProof::<P>::from_bytes(&bytes) {
+                    Err(_) => ("harness".into(), Some("the independent prover's output does not decode".into())),
+                    Ok(proof) => {
+                        let r = RangeProof::<P>::verify_batch(&mut [Transcript::new(b"sf")], &[st], &[proof], VerifyAction::VerifyOnly);
+                        (okerr(&r).into(), None)
+                    },
+                }
+            },
             "wit" => {
                 let counts: Vec<usize> = c["counts"].as_array().unwrap().iter().map(|x| x.as_u64().unwrap() as usize).collect();
                 let ops: Vec<CommitmentOpening> = counts.iter().map(|n| CommitmentOpening::new(5, vec![Scalar::from(3u8); *n])).collect();
@@ -1279,7 +1302,7 @@ pub fn ref_prove(stmt: &RangeStatement<P>, vals: &[u64], blinds: &[Vec<Scalar>],
     let mut a: Vec<Scalar> = Vec::with_capacity(nm);
     let mut b: Vec<Scalar> = Vec::with_capacity(nm);
     for j in 0..m {
-        let off = vals[j].wrapping_sub(stmt.minimum_value_promises[j].unwrap_or(0));
+        let off = vals[j].wrapping_sub(stmt.minimum_value_promises.get(j).copied().flatten().unwrap_or(0));
         for i in 0..n {
             let bit = (off >> i) & 1;
             a.push(Scalar::from(bit));
